@@ -23,33 +23,69 @@ ASSUME = [
     "overlap removal consumes the float surface-distance matrix computed by the implementation (C10 model)",
 ]
 RULE = ("exhaustive: every binary image on 1-d grids of 1..6 cells, 3x3 and 2x2x2 grids (4x3, 2x3x2 in the thorough tier) with every periodicity mask; "
-        "random: noise at densities 0.2..0.8, random-walk (non-convex) shapes, multi-piece boundary crossings on grids up to 9x9 / 5x5x4 with dyadic "
-        "spacings and origins; non-trivial = at least two labelled clusters are joined across a periodic boundary or >= 2 components; distinct by (grid, image)")
+        "random: noise at densities 0.2..0.8, random-walk (non-convex) shapes, multi-piece boundary crossings, parallel separate bars (chains of "
+        "successive overlap removals), lines winding around a periodic axis, on grids up to 9x9 / 5x5x4 and elongated ones (1..3 x up to 14 cells, both "
+        "orders) with 1-cell and 2-cell axes, dyadic spacings, origins of every kind (zero, centred, positive, entirely negative); every image is also "
+        "handed over once in a non-bool dtype (uint8, int64, float32, float64: the result must be bitwise the one of the bool mask) and must not be "
+        "mutated; non-trivial = at least two labelled clusters are joined across a periodic boundary or >= 2 components; distinct by (grid, image)")
+
+# Inputs that make the unchanged /repo misbehave and are waiting for a decision of the lead: run and reported in the
+# evidence notes, NOT judged (notes/audit_task.md).
+SUSPECTED = [
+    {"id": "S-C02-1", "class": "mask dtype float16 / longdouble",
+     "what": "locate_droplets_in_mask(ScalarField(grid, mask, dtype=float16)) raises TypeError('No matching signature found') from "
+             "scipy.ndimage.label on every grid family (uint8/int/float32/float64 masks work); locate_droplets() is unaffected because it builds a bool mask",
+     "dtypes": ["float16", "longdouble"]},
+]
 
 
-def make_grid(shape, periodic, rng=None):
+def make_grid(shape, periodic, rng=None, isotropic=False):
+    """returns (grid, origin kinds per axis)"""
     from pde import CartesianGrid
     if rng is None:
-        bounds = [(0.0, float(n)) for n in shape]
+        bounds, kinds = [(0.0, float(n)) for n in shape], ["zero"] * len(shape)
     else:
-        bounds = []
+        bounds, kinds = [], []
+        h0 = rng.choice([0.5, 1.0, 1.0, 2.0])
         for n in shape:
-            h = rng.choice([0.25, 0.5, 1.0, 1.0, 1.5, 2.0])
-            lo = rng.randrange(-16, 17) / 4.0
+            h = h0 if isotropic else rng.choice([0.25, 0.5, 1.0, 1.0, 1.5, 2.0])
+            lo, kind = lc.axis_origin(rng, n, h)
             bounds.append((lo, lo + n * h))
-    return CartesianGrid(bounds, list(shape), periodic=list(periodic))
+            kinds.append(kind)
+    return CartesianGrid(bounds, list(shape), periodic=list(periodic)), kinds
+
+
+def locate_mask(grid, mask, dtype="bool"):
+    """locate_droplets_in_mask on a ScalarField of the given dtype -> (emulsion or None, exception text or None, input mutated?)"""
+    from pde import ScalarField
+    from droplets.image_analysis import locate_droplets_in_mask
+    data = np.array(mask).astype(dtype)
+    field = ScalarField(grid, data, dtype=dtype)
+    before = field.data.copy()
+    try:
+        em, exc = locate_droplets_in_mask(field), None
+    except Exception as e:  # noqa
+        em, exc = None, f"{type(e).__name__}: {e}"
+    mutated = field.data.dtype != before.dtype or not np.array_equal(field.data, before)
+    return em, exc, mutated
+
+
+def other_dtype_failure(grid, mask, em_ref, dtype):
+    """the same 0/1 image handed over in a non-bool dtype: same droplets, no exception, input untouched"""
+    em, exc, mutated = locate_mask(grid, mask, dtype)
+    if exc:
+        return f"mask of dtype {dtype}: locate_droplets_in_mask raised {exc}"
+    if mutated:
+        return f"mask of dtype {dtype}: the data of the mask field was modified by locate_droplets_in_mask"
+    return lc.same_result(em_ref, em, f"mask of dtype {dtype}")
 
 
 def run_one(grid, mask):
-    from pde import ScalarField
     from scipy import ndimage
-    from droplets.image_analysis import locate_droplets_in_mask
     with lc.Recorder() as rec:
-        try:
-            em = locate_droplets_in_mask(ScalarField(grid, mask, dtype=bool))
-            exc = None
-        except Exception as e:  # noqa
-            em, exc = None, f"{type(e).__name__}: {e}"
+        em, exc, mutated = locate_mask(grid, mask)
+    if exc is None and mutated:
+        exc = "the data of the mask field was modified"
     labels, n = ndimage.label(mask)
     return em, exc, labels, n, (rec.log[0] if rec.log else None)
 
@@ -59,9 +95,76 @@ def label_spec_ok(mask, labels, n):
     return k == n and np.array_equal(ref, labels)
 
 
-def random_mask(rng, shape):
-    kind = rng.choice(["noise", "noise", "walk", "walk", "pieces"])
+def random_mask(rng, shape, kind=None, periodic=None):
+    kind = kind or rng.choice(["noise", "noise", "walk", "walk", "pieces"])
     m = np.zeros(shape, bool)
+    if kind == "bars":
+        # separate parallel bars of different lengths along the longest axis, on every other line: their equal-volume
+        # spheres overlap in chains (small - large - smaller ...), so that several successive removals happen and a
+        # removed index precedes the pairs treated later
+        a = int(np.argmax(shape))
+        par = rng.randrange(2)
+        aligned = rng.random() < 0.7   # bars centred on a common line: neighbouring spheres certainly overlap
+        others = [range(par, n, 2) if ax != a else [0] for ax, n in enumerate(shape)]
+        n = shape[a]
+        # zigzag: lengths medium, LARGE, small, ... in raster order, so that the first removal (medium, overlapping the
+        # large one most) precedes the pair (LARGE, small) that is treated next
+        zigzag = aligned and n >= 5 and rng.random() < 0.5
+        cycle = [(3 * n + 4) // 5, n - 1, max(2, (2 * n + 4) // 5)]
+        phase = 0 if rng.random() < 0.7 else rng.randrange(1, 3)
+        for j, idx in enumerate(itertools.product(*others)):
+            if zigzag:
+                length = min(max(cycle[(j + phase) % 3] + rng.randrange(-1, 1), 2), n)
+                off = min(max((n - length) // 2 + rng.randrange(0, 2), 0), n - length)
+                sl = list(idx)
+                sl[a] = slice(off, off + length)
+                m[tuple(sl)] = True
+                continue
+            if rng.random() < 0.1:
+                continue
+            if aligned:
+                length = rng.randrange(max(2, shape[a] // 3), shape[a] + 1)
+                off = min(max((shape[a] - length) // 2 + rng.randrange(-1, 2), 0), shape[a] - length)
+            else:
+                length = rng.randrange(1, shape[a] + 1)
+                off = rng.randrange(0, shape[a] - length + 1)
+            sl = list(idx)
+            sl[a] = slice(off, off + length)
+            m[tuple(sl)] = True
+        return m, kind
+    if kind == "across":
+        # two separate blocks on either side of a periodic face (the layer next to the face is empty on the high side, so
+        # that they are NOT connected): their equal-volume spheres overlap only under the periodic metric
+        cand = [ax for ax, p in enumerate(periodic) if p and shape[ax] >= 5] or [int(np.argmax(shape))]
+        a = rng.choice(cand)
+        n = shape[a]
+        k1 = rng.randrange(1, max(2, (n - 3) // 2 + 1))
+        k2 = rng.randrange(1, max(2, n - 3 - k1 + 1))
+        for lo_a, hi_a in ((0, k1), (n - 1 - k2, n - 1)):
+            sl = []
+            for ax, na in enumerate(shape):
+                if ax == a:
+                    sl.append(slice(lo_a, hi_a))
+                else:
+                    w = rng.randrange(max(1, na // 2), na + 1)
+                    o = rng.randrange(0, na - w + 1)
+                    sl.append(slice(o, o + w))
+            m[tuple(sl)] = True
+        return m, kind
+    if kind == "winding":
+        # a full line along one axis (winds if that axis is periodic) with side arms, plus a random walk
+        a = rng.choice([ax for ax, p in enumerate(periodic) if p] or list(range(len(shape))))
+        c = [rng.randrange(n) for n in shape]
+        sl = list(c)
+        sl[a] = slice(None)
+        m[tuple(sl)] = True
+        for _ in range(rng.randrange(0, 3)):
+            c2 = [rng.randrange(n) for n in shape]
+            for _ in range(rng.randrange(1, 2 * max(shape))):
+                m[tuple(c2)] = True
+                ax = rng.randrange(len(shape))
+                c2[ax] = (c2[ax] + rng.choice([-1, 1])) % shape[ax]
+        return m, kind
     if kind == "noise":
         p = rng.choice([0.2, 0.35, 0.5, 0.65, 0.8])
         nrng = np.random.default_rng(rng.randrange(1 << 30))
@@ -95,32 +198,66 @@ def gen_cases(ctx, rng):
     for shape in ex_shapes:
         ncell = int(np.prod(shape))
         for per in itertools.product([False, True], repeat=len(shape)):
-            grid = make_grid(shape, per)
+            grid, okinds = make_grid(shape, per)
             for bits in range(1 << ncell):
                 mask = np.array([(bits >> i) & 1 for i in range(ncell)], bool).reshape(shape)
-                cases.append((grid, mask, "exhaustive"))
+                cases.append((grid, mask, "exhaustive", okinds))
     # random larger images
-    for _ in range(ctx.scale(400, 5000)):
+    for _ in range(ctx.scale(480, 6000)):
+        kind = rng.choice(["noise", "noise", "noise", "walk", "walk", "walk", "pieces", "pieces", "bars", "bars", "winding", "across"])
         dim = rng.choice([1, 2, 2, 2, 3])
-        shape = tuple(rng.randrange(2, {1: 12, 2: 10, 3: 6}[dim]) for _ in range(dim))
+        if kind in ("bars", "across"):
+            dim = rng.choice([2, 2, 2, 3])
+        form = rng.choice(["compact", "compact", "compact", "elongated"])
+        if form == "elongated" and dim >= 2 and kind not in ("bars", "across"):
+            # one long axis (first / middle / last), the others with 1..3 cells: unequal cell counts in both orders
+            shape = [rng.randrange(1, 4) for _ in range(dim)]
+            shape[rng.randrange(dim)] = rng.randrange(8, {2: 15, 3: 11}[dim])
+            shape = tuple(shape)
+        elif kind in ("bars", "across"):
+            shape = tuple(rng.randrange(4, {2: 11, 3: 6}[dim]) for _ in range(dim))
+        else:
+            shape = tuple(rng.randrange(1 if rng.random() < 0.25 else 2, {1: 12, 2: 10, 3: 6}[dim]) for _ in range(dim))
         per = tuple(rng.random() < 0.6 for _ in range(dim))
-        grid = make_grid(shape, per, rng)
-        mask, kind = random_mask(rng, shape)
-        cases.append((grid, mask, kind))
+        if kind == "across":  # at least one periodic axis with >= 5 cells; mixed periodicity masks are the common case
+            a = rng.randrange(dim)
+            shape = tuple(max(n, 5) if ax == a else n for ax, n in enumerate(shape))
+            per = tuple(True if ax == a else rng.random() < 0.4 for ax in range(dim))
+        grid, okinds = make_grid(shape, per, rng, isotropic=(kind in ("bars", "across") and rng.random() < 0.7))
+        mask, kind = random_mask(rng, shape, kind, per)
+        cases.append((grid, mask, kind, okinds))
     return cases
+
+
+def count_topology(ctx, grid, mask, labels):
+    """histogram of where the image meets the box: clusters joined across which periodic axis (position of the axis, its
+    cell count relative to axis 0), image cells on non-periodic faces"""
+    shape = grid.shape
+    joined = []
+    for ax in range(grid.num_axes):
+        if not grid.periodic[ax]:
+            continue
+        lo, hi = np.take(labels, 0, axis=ax), np.take(labels, shape[ax] - 1, axis=ax)
+        if np.any((lo > 0) & (hi > 0) & (lo != hi)):
+            joined.append(ax)
+            if grid.num_axes > 1:
+                ctx.count("join_axis_position", "first" if ax == 0 else "last" if ax == grid.num_axes - 1 else "middle")
+            if ax > 0:
+                ctx.count("join_on_later_axis_cells_vs_axis0",
+                          "equal" if shape[ax] == shape[0] else "fewer" if shape[ax] < shape[0] else "more")
+    ctx.count("axes_with_joins", "+".join(map(str, joined)) or "none")
+    touch = [ax for ax in range(grid.num_axes) if not grid.periodic[ax]
+             and (np.take(mask, 0, axis=ax).any() or np.take(mask, shape[ax] - 1, axis=ax).any())]
+    ctx.count("touches_nonperiodic_face", bool(touch))
 
 
 # ---- cylindrical and radial grids ----------------------------------------------------------------
 def run_cyl(grid, mask):
-    from pde import ScalarField
     from scipy import ndimage
-    from droplets.image_analysis import locate_droplets_in_mask
     with lc.Recorder() as rec:
-        try:
-            em = locate_droplets_in_mask(ScalarField(grid, mask, dtype=bool))
-            exc = None
-        except Exception as e:  # noqa
-            em, exc = None, f"{type(e).__name__}: {e}"
+        em, exc, mutated = locate_mask(grid, mask)
+    if exc is None and mutated:
+        exc = "the data of the mask field was modified"
     nz = grid.shape[1]
     lab_pad, _ = ndimage.label(np.pad(mask, [[0, 0], [nz, nz]], mode="wrap"))
     lab, _ = ndimage.label(mask)
@@ -153,13 +290,21 @@ def gen_cyl_cases(ctx, rng):
             grid = CylindricalSymGrid(float(nr), (0.0, float(nz)), (nr, nz), periodic_z=per)
             for bits in range(1 << (nr * nz)):
                 mask = np.array([(bits >> i) & 1 for i in range(nr * nz)], bool).reshape(nr, nz)
-                cases.append((grid, mask, "exhaustive"))
-    for _ in range(ctx.scale(250, 3000)):
-        nr, nz = rng.randrange(1, 6), rng.randrange(2, 9)
-        dr, dz = rng.choice([0.5, 1.0, 1.0, 2.0]), rng.choice([0.25, 0.5, 1.0, 1.0])
-        zlo = rng.randrange(-8, 9) / 2.0
+                cases.append((grid, mask, "exhaustive", "exhaustive", "zero"))
+    for _ in range(ctx.scale(300, 3600)):
+        form = rng.choice(["compact", "compact", "compact", "narrow", "flat"])
+        if form == "compact":
+            nr, nz = rng.randrange(1, 6), rng.randrange(1 if rng.random() < 0.2 else 2, 9)
+            dr, dz = rng.choice([0.5, 1.0, 1.0, 2.0]), rng.choice([0.25, 0.5, 1.0, 1.0])
+        elif form == "narrow":  # few radial cells, finely sliced along z
+            nr, nz = rng.randrange(1, 4), rng.randrange(9, 21)
+            dr, dz = rng.choice([1.0, 2.0]), rng.choice([0.25, 0.5])
+        else:  # flat and wide
+            nr, nz = rng.randrange(6, 13), rng.randrange(1, 4)
+            dr, dz = rng.choice([0.5, 1.0]), rng.choice([1.0, 2.0])
+        zlo, okind = lc.axis_origin(rng, nz, dz)
         grid = CylindricalSymGrid(nr * dr, (zlo, zlo + nz * dz), (nr, nz), periodic_z=rng.random() < 0.6)
-        kind = rng.choice(["noise", "noise", "axis", "offaxis", "span", "symmetric"])
+        kind = rng.choice(["noise", "noise", "axis", "offaxis", "span", "symmetric", "discs"])
         m = np.zeros((nr, nz), bool)
         nrng = np.random.default_rng(rng.randrange(1 << 30))
         if kind == "noise":
@@ -175,11 +320,16 @@ def gen_cyl_cases(ctx, rng):
         elif kind == "span":
             m[0, :] = True
             m |= nrng.random((nr, nz)) < 0.3
+        elif kind == "discs":
+            # separate on-axis discs of different radii in every other z layer: equal-volume spheres overlap in chains
+            for z in range(rng.randrange(2), nz, 2):
+                if rng.random() < 0.85:
+                    m[:rng.randrange(1, nr + 1), z] = True
         else:  # components straddling the periodic boundary symmetrically
             k = rng.randrange(1, max(2, nz // 2))
             m[:rng.randrange(1, nr + 1), :k] = True
             m[:rng.randrange(1, nr + 1), nz - k:] = True
-        cases.append((grid, m, kind))
+        cases.append((grid, m, kind, form, okind))
     return cases
 
 
@@ -210,17 +360,32 @@ def run_sym_streams(ctx, rng, ok, fails, known_hits):
     from droplets.image_analysis import locate_droplets_in_mask
     # ---- cylindrical
     lits, meta = [], []
-    for grid, mask, kind in gen_cyl_cases(ctx, rng):
+    for case_no, (grid, mask, kind, form, okind) in enumerate(gen_cyl_cases(ctx, rng)):
         em, exc, lab_pad, lab, cands, out, M = run_cyl(grid, mask)
         inp = {"family": "cylindrical", "shape": list(grid.shape), "bounds": [list(map(float, b)) for b in grid.axes_bounds],
                "periodic_z": bool(grid.periodic[1]), "mask": mask.astype(int).ravel().tolist()}
         ctx.case(inp, nontrivial=bool(mask[0].any()))
         ctx.count("cyl_kind", kind)
         ctx.count("cyl_periodic", bool(grid.periodic[1]))
+        ctx.count("cyl_form", form)
+        ctx.count("cyl_nr_vs_nz", "nr<nz" if grid.shape[0] < grid.shape[1] else "nr>nz" if grid.shape[0] > grid.shape[1] else "nr=nz")
+        ctx.count("cyl_dr_vs_dz", lc.order_of([float(h) for h in grid.discretization]))
+        ctx.count("cyl_min_cells_per_axis", min(grid.shape) if min(grid.shape) < 4 else ">=4")
+        ctx.count("cyl_z_origin_kind", okind)
+        on_axis_comps = [c for c in lc.cyl_components(mask, bool(grid.periodic[1])) if c["on_axis"]]
+        ctx.count("cyl_component_longer_in_z_cells_than_nr",
+                  any(len({cell[1] for cell in c["cells"]}) > grid.shape[0] for c in on_axis_comps))
+        ctx.count("cyl_on_axis_component_touches_z_face", any(cell[1] in (0, grid.shape[1] - 1) for c in on_axis_comps for cell in c["cells"]))
         if exc:
             fails.append({"what": f"locate_droplets_in_mask raised {exc}", "input": inp})
             continue
         ctx.count("cyl_droplets", len(em))
+        lc.count_removals(ctx, M, [c[2] for c in cands], out, prefix="cyl_")
+        dt = lc.MASK_DTYPES[case_no % len(lc.MASK_DTYPES)]
+        ctx.count("cyl_mask_dtype_second_call", dt)
+        f = other_dtype_failure(grid, mask, em, dt)
+        if f:
+            fails.append({"what": f, "input": {**inp, "dtype": dt}})
         for cls, desc in lc.oracle_cyl(grid, mask, em, cands, out):
             if cls in KNOWN_CLASSES and (KNOWN_CLASSES[cls] != "F29" or bool(grid.periodic[1])):
                 known_hits.setdefault(cls, {"what": desc, "input": inp})
@@ -237,16 +402,22 @@ def run_sym_streams(ctx, rng, ok, fails, known_hits):
     ctx.sample(meta[len(meta) // 2])
     # ---- radial
     lits, meta = [], []
-    for grid, mask, kind in gen_rad_cases(ctx, rng):
+    for case_no, (grid, mask, kind) in enumerate(gen_rad_cases(ctx, rng)):
         inp = {"family": type(grid).__name__, "n": int(grid.shape[0]), "bounds": list(map(float, grid.axes_bounds[0])),
                "mask": mask.astype(int).tolist()}
         ctx.case(inp, nontrivial=bool(mask[0]))
         ctx.count("radial_family", type(grid).__name__)
-        try:
-            em = locate_droplets_in_mask(ScalarField(grid, mask, dtype=bool))
-        except Exception as e:  # noqa
-            fails.append({"what": f"locate_droplets_in_mask raised {type(e).__name__}: {e}", "input": inp})
+        ctx.count("radial_inner_radius", "0" if grid.axes_bounds[0][0] == 0 else "> 0")
+        ctx.count("radial_cells", int(grid.shape[0]) if grid.shape[0] < 3 else ">=3")
+        em, exc, mutated = locate_mask(grid, mask)
+        if exc or mutated:
+            fails.append({"what": f"locate_droplets_in_mask raised {exc}" if exc else "the data of the mask field was modified", "input": inp})
             continue
+        dt = lc.MASK_DTYPES[case_no % len(lc.MASK_DTYPES)]
+        ctx.count("radial_mask_dtype_second_call", dt)
+        f = other_dtype_failure(grid, mask, em, dt)
+        if f:
+            fails.append({"what": f, "input": {**inp, "dtype": dt}})
         rlo, rhi = grid.axes_bounds[0]
         dr = (rhi - rlo) / grid.shape[0]
         # property text: the component containing the innermost cell (if any) gives one droplet at the origin whose
@@ -269,6 +440,38 @@ def run_sym_streams(ctx, rng, ok, fails, known_hits):
             ctx.broken.append(f"correspondence locate_droplets_in_mask (radial): model and implementation differ on {meta[b]}")
 
 
+def run_suspected(ctx, rng):
+    """Inputs of the SUSPECTED classes: executed, reported in the evidence notes, not judged."""
+    from pde import CartesianGrid, CylindricalSymGrid, SphericalSymGrid
+    for sus in SUSPECTED:
+        seen, raised, differ, example = 0, 0, 0, None
+        for _ in range(6):
+            which = rng.choice(["cartesian", "cylindrical", "spherical"])
+            if which == "cartesian":
+                shape = (rng.randrange(2, 6), rng.randrange(2, 6))
+                grid = CartesianGrid([(0, shape[0]), (0, shape[1])], list(shape), periodic=[rng.random() < 0.5, rng.random() < 0.5])
+            elif which == "cylindrical":
+                shape = (rng.randrange(1, 4), rng.randrange(2, 6))
+                grid = CylindricalSymGrid(shape[0], (0, shape[1]), list(shape), periodic_z=rng.random() < 0.5)
+            else:
+                shape = (rng.randrange(2, 7),)
+                grid = SphericalSymGrid(shape[0], shape[0])
+            mask = np.array([rng.random() < 0.6 for _ in range(int(np.prod(shape)))], bool).reshape(shape)
+            ref, exc0, _ = locate_mask(grid, mask)
+            for dt in sus["dtypes"]:
+                seen += 1
+                ctx.count("suspected_inputs_not_judged", f"{sus['id']} {dt}")
+                em, exc, _ = locate_mask(grid, mask, dt)
+                if exc:
+                    raised += 1
+                    example = example or f"{type(grid).__name__}{tuple(shape)} dtype {dt}: {exc}"
+                elif exc0 is None and lc.same_result(ref, em, dt):
+                    differ += 1
+        ctx.notes.append(f"SUSPECTED {sus['id']} (executed, NOT judged, waiting for a decision): {sus['what']}. This run: {raised} of {seen} calls raised"
+                         f"{', ' + str(differ) + ' returned a result different from the bool mask' if differ else ''}"
+                         f"{'; e.g. ' + example if example else ''}")
+
+
 # failure classes of the cylindrical oracle that are matched against known_findings.json
 KNOWN_CLASSES = {"position is not the volume-weighted centre of mass": "F27", "overlap": "F29", "winding volume": "F29"}
 
@@ -279,16 +482,21 @@ def check(ctx: vlib.Ctx) -> int:
     ctx.tie.append("hand-written model (Model/MergeLoop.v, Model/Locate.v) + correspondence on locate_droplets_in_mask; ndimage.label as checked oracle")
     lits, meta, fails = [], [], []
     nspec_bad = 0
-    for grid, mask, kind in gen_cases(ctx, rng):
+    for case_no, (grid, mask, kind, okinds) in enumerate(gen_cases(ctx, rng)):
         em, exc, labels, n, rec = run_one(grid, mask)
         per = [bool(p) for p in grid.periodic]
-        ncomp = len(lc.torus_components(mask, per)) if mask.any() else 0
+        comps = lc.torus_components(mask, per) if mask.any() else []
+        ncomp = len(comps)
         ctx.case([list(grid.shape), per, [list(b) for b in grid.axes_bounds], mask.astype(int).ravel().tolist()],
                  nontrivial=(n >= 2))
         ctx.count("kind", kind)
         ctx.count("dim", grid.dim)
         ctx.count("periodic_axes", sum(per))
         ctx.count("labels_minus_components", n - ncomp)
+        lc.count_grid(ctx, grid, okinds if kind != "exhaustive" else None)
+        ctx.count("components", ncomp if ncomp < 4 else ">=4")
+        ctx.count("winding_components", sum(c["lifted"] is None for c in comps))
+        count_topology(ctx, grid, mask, labels)
         inp = {"shape": list(grid.shape), "periodic": per, "bounds": [list(b) for b in grid.axes_bounds],
                "mask": mask.astype(int).ravel().tolist()}
         if exc:
@@ -300,7 +508,21 @@ def check(ctx: vlib.Ctx) -> int:
         f = lc.oracle_cart(grid, mask, em, rec)
         if f:
             fails.append({"what": f, "input": inp})
+        # the same image in a non-bool dtype (cycled deterministically)
+        dt = lc.MASK_DTYPES[case_no % len(lc.MASK_DTYPES)]
+        ctx.count("mask_dtype_second_call", dt)
+        f = other_dtype_failure(grid, mask, em, dt)
+        if f:
+            fails.append({"what": f, "input": {**inp, "dtype": dt}})
         if rec is not None:
+            rad = [c[2] for c in rec["cands"]]
+            lc.count_removals(ctx, rec["M"], rad, rec["out"])
+            if len(rad) >= 2 and any(per):
+                # would plain Euclidean distances lead to another selection? (seeded changes C02-2, C10-3: metric on partially periodic grids)
+                P = np.array([c[0] for c in rec["cands"]])
+                E = np.sqrt(((P[:, None, :] - P[None, :, :]) ** 2).sum(-1)) - np.add.outer(rad, rad)
+                ctx.count("selection_depends_on_periodic_metric" + (" (mixed periodicity)" if not all(per) else " (fully periodic)"),
+                          lc.simulate_remove_overlapping(E, rad) != list(rec["out"]))
             lits.append(lc.loc_case_lit(grid, labels, rec))
             meta.append(inp)
         elif n != 0 or len(em) != 0:
@@ -315,6 +537,10 @@ def check(ctx: vlib.Ctx) -> int:
             ctx.broken.append(f"correspondence locate_droplets_in_mask (Cartesian): model and implementation differ on {meta[b]}")
     known_hits = {}
     run_sym_streams(ctx, rng, ok, fails, known_hits)
+    run_suspected(ctx, rng)
+    ctx.notes.append("second calls (the same 0/1 image as uint8 / int64 / float32 / float64 data) are compared bitwise with the call on the bool mask in "
+                     "Python only; the bool call is the one that enters the in-Coq correspondence. All new image kinds (bars, winding, discs) and grid "
+                     "kinds (1-cell axes, elongated boxes, every origin kind, narrow / flat cylinders) go through the in-Coq correspondence.")
     listed = {e["id"] for e in vlib.load_known() if e.get("property") == "C02" and e.get("kind") == "finding"}
     for cls, hit in known_hits.items():
         fid = KNOWN_CLASSES[cls]
@@ -331,12 +557,39 @@ def replay(path: str) -> int:
     obj = json.load(open(path))
     print(json.dumps(obj, indent=1)[:1500])
     inp = obj.get("input", {})
-    if "mask" in inp:
+    if "mask" not in inp:
+        return 0
+    fam = inp.get("family", "cartesian")
+    dt = inp.get("dtype")
+    if fam == "cartesian":
         from pde import CartesianGrid
         grid = CartesianGrid([tuple(b) for b in inp["bounds"]], inp["shape"], periodic=inp["periodic"])
         mask = np.array(inp["mask"], bool).reshape(inp["shape"])
         em, exc, labels, n, rec = run_one(grid, mask)
         f = f"raised {exc}" if exc else lc.oracle_cart(grid, mask, em, rec)
-        print("property oracle on the current tree:", f or "holds")
-        return 1 if f else 0
-    return 0
+    elif fam == "cylindrical":
+        from pde import CylindricalSymGrid
+        grid = CylindricalSymGrid(inp["bounds"][0][1], tuple(inp["bounds"][1]), inp["shape"], periodic_z=inp["periodic_z"])
+        mask = np.array(inp["mask"], bool).reshape(inp["shape"])
+        em, exc, lab_pad, lab, cands, out, M = run_cyl(grid, mask)
+        fl = [] if exc else [f"{c}: {d}" for c, d in lc.oracle_cyl(grid, mask, em, cands, out)
+                             if not (c in KNOWN_CLASSES and (KNOWN_CLASSES[c] != "F29" or inp["periodic_z"]))]
+        f = f"raised {exc}" if exc else (fl[0] if fl else None)
+    else:
+        import pde
+        grid = getattr(pde, fam)(tuple(inp["bounds"]), inp["n"])
+        mask = np.array(inp["mask"], bool)
+        em, exc, _ = locate_mask(grid, mask)
+        n_in = 0
+        while n_in < len(mask) and mask[n_in]:
+            n_in += 1
+        rlo, rhi = grid.axes_bounds[0]
+        want = rlo + n_in * (rhi - rlo) / grid.shape[0]
+        f = (f"raised {exc}" if exc else
+             None if (n_in == 0 and len(em) == 0) or (n_in > 0 and len(em) == 1 and abs(em[0].radius - want) <= 1e-12 * (1 + rhi)
+                                                     and not np.any(em[0].position != 0))
+             else f"expected {'no droplet' if n_in == 0 else 'one droplet of radius %r at the origin' % want}")
+    if f is None and dt and em is not None:
+        f = other_dtype_failure(grid, mask, em, dt)
+    print("property oracle on the current tree:", f or "holds")
+    return 1 if f else 0
